@@ -858,11 +858,232 @@ def gen_step(repo):
     return "\n".join(L)
 
 
+# --------------------------------------------------------------------------- run_reactions: CVODE continuation (RESTART) loop
+
+def gen_restart(repo):
+    """time bookkeeping of the loop that re-initialises CVODE when a call stops early (step budget exhausted, mass-balance
+    failure): what is added to the elapsed-time variable, what the next call is asked to integrate, where it starts."""
+    objs, src = ast_dump(repo, "src/phreeqcpp/kinetics.cpp", "run_reactions")
+    fn = definition(objs, "run_reactions")
+    params = {c["id"]: c["name"] for c in kids(fn) if c["kind"] == "ParmVarDecl"}
+
+    def is_call(n, name):
+        n = strip(n)
+        return n["kind"] == "CallExpr" and strip(kids(n)[0]).get("referencedDecl", {}).get("name") == name
+
+    def calls_in(n, name):
+        return find_all(n, lambda x: x["kind"] == "CallExpr" and strip(kids(x)[0]).get("referencedDecl", {}).get("name") == name)
+
+    loops = [w for w in find_all(fn, lambda n: n["kind"] == "WhileStmt") if calls_in(w, "CVode")]
+    if len(loops) != 1:
+        raise Refuse("expected exactly one while loop calling CVode in run_reactions, found %d" % len(loops))
+    loop = loops[0]
+    lbody = kids(loop)[1]
+    # the compound statement that holds the loop (possibly through a label)
+    def holder(n):
+        for c in kids(n):
+            cc = c
+            while cc["kind"] == "LabelStmt":
+                cc = kids(cc)[0]
+            if cc is loop:
+                return n, c
+            r = holder(c)
+            if r:
+                return r
+        return None
+    hold = holder(fn)
+    if not hold or hold[0]["kind"] != "CompoundStmt":
+        raise Refuse("continuation loop is not a statement of a block")
+    block, loop_stmt = hold
+
+    LGT = "cvode_last_good_time"
+
+    class Sym:
+        """symbolic execution of straight-line assignments to floating locals and to the member cvode_last_good_time"""
+        def __init__(self):
+            self.env = {}
+            self.events = []
+
+        def key(self, n):
+            n = strip(n)
+            if n["kind"] == "DeclRefExpr" and n.get("type", {}).get("qualType") in ("double", "LDBLE", "realtype"):
+                return ("v", n["referencedDecl"]["id"], n["referencedDecl"]["name"])
+            if n["kind"] == "MemberExpr" and n.get("name") == LGT:
+                return ("m", LGT, LGT)
+            return None
+
+        def ev(self, n):
+            n = strip(n)
+            k = n["kind"]
+            if k in ("FloatingLiteral", "IntegerLiteral"):
+                return ("lit", literal(n, src))
+            ky = self.key(n)
+            if ky is not None:
+                return self.env.get(ky[:2], ("sym", ky[1], ky[2]))
+            if k == "UnaryOperator" and n["opcode"] == "-":
+                return ("neg", self.ev(kids(n)[0]))
+            if k == "BinaryOperator" and n["opcode"] in ("+", "-", "*", "/"):
+                a, b = [self.ev(c) for c in kids(n)]
+                return ({"+": "add", "-": "sub", "*": "mul", "/": "div"}[n["opcode"]], a, b)
+            raise Refuse("continuation loop: expression outside subset: %s %s" % (k, n.get("opcode", "")))
+
+        def stmt(self, st, top):
+            s0 = strip(st)
+            k = s0["kind"]
+            if k in ("BinaryOperator", "CompoundAssignOperator") and s0.get("opcode") in ("=", "+=", "-=", "*=", "/="):
+                lhs, rhs = kids(s0)
+                ky = self.key(lhs)
+                r = strip(rhs)
+                if ky is not None:
+                    if not top:
+                        raise Refuse("continuation loop: conditional assignment to %s" % ky[2])
+                    e = self.ev(rhs)
+                    op = s0["opcode"]
+                    if op != "=":
+                        cur = self.env.get(ky[:2], ("sym", ky[1], ky[2]))
+                        e = ({"+=": "add", "-=": "sub", "*=": "mul", "/=": "div"}[op], cur, e)
+                    self.env[ky[:2]] = e
+                    return
+                if r["kind"] == "CallExpr":
+                    self.call(r, top)
+                return
+            if k == "CallExpr":
+                self.call(s0, top)
+                return
+            if k in ("CompoundStmt", "IfStmt", "ForStmt", "LabelStmt", "WhileStmt"):
+                if k == "WhileStmt" and s0 is loop:
+                    return
+                for c in kids(s0):
+                    if "kind" in c and c["kind"] not in ("DeclStmt",):
+                        if c["kind"].endswith("Stmt") or c["kind"] in ("BinaryOperator", "CompoundAssignOperator", "CallExpr"):
+                            self.stmt(c, False if k != "CompoundStmt" or not top else top)
+
+        def call(self, c, top):
+            name = strip(kids(c)[0]).get("referencedDecl", {}).get("name")
+            args = kids(c)[1:]
+            if name == "CVode":
+                if not top:
+                    raise Refuse("CVode is called conditionally")
+                tv = strip(args[3])
+                if tv["kind"] != "UnaryOperator" or tv.get("opcode") != "&":
+                    raise Refuse("CVode time argument is not &<local>")
+                self.events.append(("cvode", self.ev(args[1]), self.ev(kids(tv)[0]), self.env.get(("m", LGT), ("sym", LGT, LGT))))
+            elif name == "CVodeMalloc":
+                self.events.append(("malloc", self.ev(args[2])))
+            elif name == "N_VScale":
+                a = [strip(x) for x in args]
+                if a[1]["kind"] == "MemberExpr" and a[2]["kind"] == "MemberExpr":
+                    self.events.append(("copy", self.ev(args[0]), a[1].get("name"), a[2].get("name")))
+
+    # statements before the loop, in the block that holds it
+    pre = Sym()
+    for st in kids(block):
+        if st is loop_stmt:
+            break
+        pre.stmt(st, True)
+    firsts = [e for e in pre.events if e[0] == "cvode"]
+    mallocs = [e for e in pre.events if e[0] == "malloc"]
+    if len(firsts) != 1 or len(mallocs) != 1:
+        raise Refuse("expected one CVodeMalloc and one CVode call before the continuation loop")
+    body = Sym()
+    for st in kids(lbody):
+        body.stmt(st, True)
+    bc = [e for e in body.events if e[0] == "cvode"]
+    bm = [e for e in body.events if e[0] == "malloc"]
+    cp = [e for e in body.events if e[0] == "copy"]
+    if len(bc) != 1 or len(bm) != 1:
+        raise Refuse("expected one CVodeMalloc and one CVode call inside the continuation loop")
+    # order inside the loop: copy of the restart state and CVodeMalloc must precede the call
+    order = [e[0] for e in body.events]
+    if not cp or order.index("copy") > order.index("cvode") or order.index("malloc") > order.index("cvode"):
+        raise Refuse("continuation loop does not restore a state / re-initialise before calling CVode")
+
+    def syms(e, acc):
+        if e[0] == "sym":
+            acc.add((e[1], e[2]))
+        for x in e[1:]:
+            if isinstance(x, tuple):
+                syms(x, acc)
+        return acc
+    # the elapsed-time variable: the local whose value after one pass depends on cvode_last_good_time at entry
+    tgt0 = bc[0][1]
+    sumv = [k for k, e in body.env.items() if k[0] == "v" and (LGT, LGT) in syms(e, set()) and e != tgt0]
+    if len(sumv) != 1:
+        raise Refuse("could not identify the elapsed-time variable of the continuation loop")
+    sum_id = sumv[0][1]
+    tgt = bc[0][1]
+    others = [s for s in syms(tgt, set()) if s[0] not in (sum_id, LGT)]
+    if len(others) != 1:
+        raise Refuse("target of the continuation call does not depend on exactly one other variable")
+    tout_id = others[0][0]
+
+    def em(e, m):
+        t = e[0]
+        if t == "lit":
+            return qlit(e[1])
+        if t == "sym":
+            if e[1] in m:
+                return m[e[1]]
+            raise Refuse("continuation loop: free symbol %s" % e[2])
+        if t == "neg":
+            return "(- %s)" % em(e[1], m)
+        return "(%s %s %s)" % (em(e[1], m), {"add": "+", "sub": "-", "mul": "*", "div": "/"}[t], em(e[2], m))
+
+    pm = {i: "kin_time" for i, nme in params.items() if nme == "kin_time"}
+    if not pm:
+        raise Refuse("run_reactions has no parameter kin_time")
+    lm = {sum_id: "sum_t", tout_id: "tout", LGT: "last"}
+    L = ["(* GENERATED by translator/c12_gen.py from src/phreeqcpp/kinetics.cpp : Phreeqc::run_reactions (CVODE continuation loop).  Do not edit. *)",
+         "Require Import QArith.", "Open Scope Q_scope.", "",
+         "(* before the loop *)",
+         "Definition g_cv_tout (kin_time : Q) : Q := %s." % em(pre.env.get(("v", tout_id), ("sym", tout_id, "tout")), pm),
+         "Definition g_cv_sum_init (kin_time : Q) : Q := %s." % em(pre.env.get(("v", sum_id), ("sym", sum_id, "sum_t")), pm),
+         "Definition g_cv_first_target (kin_time : Q) : Q := %s." % em(firsts[0][1], pm),
+         "Definition g_cv_first_tstart (kin_time : Q) : Q := %s." % em(firsts[0][2], pm),
+         "Definition g_cv_first_t0 (kin_time : Q) : Q := %s." % em(mallocs[0][1], pm),
+         "", "(* one pass through the loop; sum_t, tout = values at the top of the pass, last = cvode_last_good_time left by the call that stopped *)",
+         "Definition g_cv_sum_next (sum_t last : Q) : Q := %s." % em(body.env[("v", sum_id)], lm),
+         "Definition g_cv_loop_target (tout sum_t last : Q) : Q := %s." % em(tgt, lm),
+         "Definition g_cv_loop_tstart (tout sum_t last : Q) : Q := %s." % em(bc[0][2], lm),
+         "Definition g_cv_loop_t0 (tout sum_t last : Q) : Q := %s." % em(bm[0][1], lm),
+         "Definition g_cv_last_good_reset (tout sum_t last : Q) : Q := %s.  (* cvode_last_good_time when the new call starts *)" % em(bc[0][3], lm),
+         "Definition g_cv_tout_next (tout sum_t last : Q) : Q := %s." % em(body.env.get(("v", tout_id), ("sym", tout_id, "tout")), lm),
+         "(* N_VScale(factor, src, dst) executed before the call *)",
+         "Definition g_cv_restart_factor : Q := %s." % em(cp[0][1], {}),
+         "Definition g_cv_restart_from_last_good : bool := %s." % ("true" if (cp[0][2], cp[0][3]) == ("cvode_last_good_y", "kinetics_y") else "false"),
+         ""]
+    # where CVStep (cvode.cpp) copies cvode_last_good_y from: the accepted solution zn[0] at tn, or the work vector y
+    # (after a failed step attempt y is the rejected corrector iterate at tn + h_failed)
+    objs2, _ = ast_dump(repo, "src/phreeqcpp/cvode.cpp", "CVStep")
+    fn2 = definition(objs2, "CVStep")
+    srcs = []
+    for c in find_all(fn2, lambda n: n["kind"] == "CallExpr" and strip(kids(n)[0]).get("referencedDecl", {}).get("name") == "N_VScale"):
+        a = [strip(x) for x in kids(c)[1:]]
+        if len(a) == 3 and a[2]["kind"] == "MemberExpr" and a[2].get("name") == "cvode_last_good_y":
+            x = a[1]
+            if x["kind"] == "MemberExpr" and x.get("name") == "cv_y":
+                srcs.append(1)
+            elif x["kind"] == "ArraySubscriptExpr" and strip(kids(x)[0]).get("name") == "cv_zn" and strip(kids(x)[1]).get("value") == "0":
+                srcs.append(0)
+            else:
+                srcs.append(2)
+    if len(srcs) != 1:
+        raise Refuse("CVStep: expected exactly one copy into cvode_last_good_y, found %d" % len(srcs))
+    L += ["(* CVStep: source of cvode_last_good_y: 0 = zn[0] (accepted solution at tn), 1 = work vector y, 2 = something else *)",
+          "Definition g_cv_last_good_source : nat := %d." % srcs[0], ""]
+    return "\n".join(L)
+
+
 def main():
     repo = sys.argv[1] if len(sys.argv) > 1 else "/repo"
     outd = sys.argv[2] if len(sys.argv) > 2 else None
     t = gen_tableau(repo)
     s = gen_step(repo)
+    r = gen_restart(repo)
+    if outd:
+        open(os.path.join(outd, "Gen_C12_Restart.v"), "w").write(r)
+    else:
+        sys.stdout.write(r)
     if outd:
         open(os.path.join(outd, "Gen_C12_Tableau.v"), "w").write(t)
         open(os.path.join(outd, "Gen_C12_Step.v"), "w").write(s)
